@@ -541,9 +541,9 @@ func tierFromArgs() string {
 
 func cases(tier string) int {
 	if tier == "thorough" {
-		return 20000
+		return 6000 // the BPF leg loads four programs per state into the kernel (the verifier is serialised system-wide)
 	}
-	return 500
+	return 400
 }
 
 func main() {
@@ -553,10 +553,11 @@ func main() {
 		ID:    "C12",
 		Level: "exploration",
 		Rule: "one workload-endpoint policy state per case (0-4 tiers, enforced and staged policies in inline and own-chain groups, default actions Deny/Pass, 0-3 profiles, simple rules over a small packet universe restricted to protocol / CIDR / numeric port / selector-IP-set criteria, IpVersion set or unset); " +
-			"evaluated by the iptables renderer + nfsim, the nftables renderer + nfsim and app-policy checker.Evaluate over a policystore (further legs via extraLegs), both directions, ~40 TCP/UDP/SCTP probes of the case's family plus 8 of the other family; " +
+			"evaluated by the iptables renderer + nfsim, the nftables renderer + nfsim and app-policy checker.Evaluate over a policystore and the BPF policy program built by felix/bpf/polprog run in the kernel (bpfleg.go, via extraLegs), both directions, ~40 TCP/UDP/SCTP probes of the case's family plus 8 of the other family; " +
 			"non-trivial = some probe was decided by a policy rule, a profile rule or an end-of-tier default; distinct by layout",
 		Assumptions: []string{
-			"internal/nfsim is the trusted interpreter of the rendered iptables/nftables text; the BPF leg is not part of this run unless extraLegs is populated",
+			"internal/nfsim is the trusted interpreter of the rendered iptables/nftables text",
+			"BPF leg (bpfleg.go): the state converted as bpf_ep_mgr.extractRules does, compiled by the real polprog builder, one program per direction and family, executed in the real kernel via bpf(2) (verifier, LPM-trie IP sets, BPF_PROG_TEST_RUN; counter bpf_leg_kernel_states) or, where bpf() is refused, in verif/internal/bpfvm (bpf_leg_interpreter_only_states); it is the policy program only: no NAT, not to/from host, SCTP ports filled in although the TC parser does not extract them; CGO off, no race detector",
 			"the application-layer checker's verdict is read from checker.Evaluate's trace: allowed iff the last trace entry is an allow rule (checkTiers returns OK only on those paths)",
 			"restricted to features all implementations support: no named ports, ICMP, HTTP, service accounts, services; no pass-action rules in profiles; simple rules only (C08/C09 known findings cannot surface)",
 			"candidate finding app-policy-checker:rule-ip-version-not-applied is emitted only when the L7 checker alone differs and its verdict equals the reference evaluated with Rule.IpVersion and the per-family CIDR filtering ignored",
@@ -569,6 +570,7 @@ func main() {
 			"verdicts_iptables":           3000,
 			"verdicts_nft":                3000,
 			"verdicts_app-policy-checker": 3000,
+			"verdicts_bpf":                3000,
 			"verdict_allowed_iptables":    300,
 			"verdict_denied_iptables":     300,
 			"rules_rendered_iptables":     5000,
